@@ -146,6 +146,14 @@ def run(rep, tier, driver):
     if tier == "quick":
         sj = rng.sample(sj, min(len(sj), 500))
     queryx.run_start(rep, tier, driver, sj, None)
+    # the binding plan (Poly/Plan.lean: which residue takes which anomer - the root from the option unless it has a suffix) against
+    # the calls Merger.mark / merge_int issue, for every root-anomer variant of the sampled glycans
+    import planx
+    pj = []
+    for s0, o, _sfx in sj[: (150 if tier == "quick" else 3000)]:
+        pj.append((s0, (o or {}).get("root_orientation", "n")))
+    pj += [(g, ro) for g in ["Neu5Ac", "Kdo", "Fruf", "Neu5Ac(a2-8)Neu5Ac", "Gal(b1-4)Fruf", "Man(a1-4)Glc", "Glc", "Neu5Ac a", "Kdo(a2-4)Kdo b"] for ro in ("a", "b", "n", "A", "alpha")]
+    planx.run(rep, tier, driver, pj)
 
 
 def replay(body):
